@@ -29,6 +29,10 @@ import (
 func init() { hx.Register("C18", Run) }
 
 func Run(c *hx.Ctx) {
+	if c.Tier == "canary-continuation" {
+		canaryContinuation()
+		return
+	}
 	runFlowOps(c)
 	runInts(c)
 	runStrings(c)
